@@ -365,6 +365,13 @@ _COMB = {
     'core::bool::<impl bool>::then': ('bool', 'then'),
     'std::option::Option::<T>::filter': ('opt', 'filter'),
     'std::iter::Iterator::for_each': ('iter', 'for_each'),
+    'std::option::Option::<T>::map': ('opt', 'map'),
+    'std::option::Option::<T>::and_then': ('opt', 'and_then'),
+    'std::option::Option::<T>::or_else': ('opt', 'or_else'),
+    'std::option::Option::<T>::ok_or_else': ('opt', 'ok_or_else'),
+    'std::result::Result::<T, E>::map': ('res', 'map'),
+    'std::result::Result::<T, E>::map_err': ('res', 'map_err'),
+    'std::result::Result::<T, E>::and_then': ('res', 'and_then'),
 }
 
 
@@ -582,6 +589,39 @@ def _expand_one(body, bodies, bi, kind, how):
         b_c = _emit_call(body, bodies, fop, [{'k': 'move', 'place': _pl(rx)}], _pl(keep, 'bool'), b_sw2, sp)
         b_s = _mk_block(body, [take_x, {'k': 'assign', 'place': _pl(rx), 'rv': {'k': 'ref', 'mut': False, 'fake': False, 'place': _pl(x)}, 'sp': sp, 'ex': []}], _goto(b_c, sp))
         b_n = _mk_block(body, [{'k': 'assign', 'place': copy.deepcopy(dest), 'rv': _agg(adt, 'None', 0, []), 'sp': sp, 'ex': []}], _goto(target, sp))
+    elif how in ('map', 'and_then'):
+        fop = args[1]
+        if how == 'map':
+            y = _mk_local(body, '?')
+            b_wrap = _mk_block(body, [{'k': 'assign', 'place': copy.deepcopy(dest), 'rv': _agg(adt, some[0], some[1], [{'k': 'move', 'place': _pl(y)}]), 'sp': sp, 'ex': []}], _goto(target, sp))
+            b_c = _emit_call(body, bodies, fop, [{'k': 'move', 'place': _pl(x)}], _pl(y), b_wrap, sp)
+        else:
+            b_c = _emit_call(body, bodies, fop, [{'k': 'move', 'place': _pl(x)}], dest, target, sp)
+        b_s = _mk_block(body, [take_x], _goto(b_c, sp))
+        if kind == 'opt':
+            b_n = _mk_block(body, [{'k': 'assign', 'place': copy.deepcopy(dest), 'rv': _agg(adt, 'None', 0, []), 'sp': sp, 'ex': []}], _goto(target, sp))
+        else:
+            e = _mk_local(body, '?')
+            b_n = _mk_block(body, [_assign(e, '?', {'k': 'move', 'place': _payload(recv, 'Err', 1)}, sp),
+                                   {'k': 'assign', 'place': copy.deepcopy(dest), 'rv': _agg(adt, 'Err', 1, [{'k': 'move', 'place': _pl(e)}]), 'sp': sp, 'ex': []}], _goto(target, sp))
+    elif how == 'map_err':
+        fop = args[1]
+        e = _mk_local(body, '?')
+        y = _mk_local(body, '?')
+        b_wrap = _mk_block(body, [{'k': 'assign', 'place': copy.deepcopy(dest), 'rv': _agg(adt, 'Err', 1, [{'k': 'move', 'place': _pl(y)}]), 'sp': sp, 'ex': []}], _goto(target, sp))
+        b_c = _emit_call(body, bodies, fop, [{'k': 'move', 'place': _pl(e)}], _pl(y), b_wrap, sp)
+        b_n = _mk_block(body, [_assign(e, '?', {'k': 'move', 'place': _payload(recv, 'Err', 1)}, sp)], _goto(b_c, sp))
+        b_s = _mk_block(body, [take_x, {'k': 'assign', 'place': copy.deepcopy(dest), 'rv': _agg(adt, 'Ok', 0, [{'k': 'move', 'place': _pl(x)}]), 'sp': sp, 'ex': []}], _goto(target, sp))
+    elif how == 'or_else':
+        fop = args[1]
+        b_s = _mk_block(body, [take_x, {'k': 'assign', 'place': copy.deepcopy(dest), 'rv': _agg(adt, 'Some', 1, [{'k': 'move', 'place': _pl(x)}]), 'sp': sp, 'ex': []}], _goto(target, sp))
+        b_n = _emit_call(body, bodies, fop, [], dest, target, sp)
+    elif how == 'ok_or_else':
+        fop = args[1]
+        y = _mk_local(body, '?')
+        b_s = _mk_block(body, [take_x, {'k': 'assign', 'place': copy.deepcopy(dest), 'rv': _agg('std::result::Result', 'Ok', 0, [{'k': 'move', 'place': _pl(x)}]), 'sp': sp, 'ex': []}], _goto(target, sp))
+        b_wrap = _mk_block(body, [{'k': 'assign', 'place': copy.deepcopy(dest), 'rv': _agg('std::result::Result', 'Err', 1, [{'k': 'move', 'place': _pl(y)}]), 'sp': sp, 'ex': []}], _goto(target, sp))
+        b_n = _emit_call(body, bodies, fop, [], _pl(y), b_wrap, sp)
     else:
         raise _NoInline('combinator')
     arms = [[some[1], b_s], [none[1], b_n]]
